@@ -6,11 +6,11 @@
 From Symv Require Import Cats.AstRender Cats.Expand Cats.ExpandProofs.
 Open Scope string_scope.
 
-(* ---- prefix_copy_spec: name x for `__value__`, x_name otherwise; size / sizeref / condition / sort-key references re-pointed;
+(* ---- prefix_copy_spec: name x for `__value__`, x_name otherwise; size / sizeref / sizeof / condition / sort-key references re-pointed;
         everything else kept; the comment comes from the `[key]` map of the named inline's documentation *)
 Theorem prefix_copy_spec : forall x site_comment n t v d a c,
   copy_field x (match site_comment with Some k => build_comment_map k | None => [] end) (Field n t v d a c)
-  = Ok (Field (spec_name x n) (spec_type x t) (spec_value x v) d a (spec_comment site_comment n)).
+  = Ok (Field (spec_name x n) (spec_type x t) (spec_value x d v) d a (spec_comment site_comment n)).
 Proof. exact copy_field_spec. Qed.
 Print Assumptions prefix_copy_spec.
 
@@ -27,6 +27,7 @@ Theorem prefix_copy_keeps_rest : forall x site_comment n t v d a c,
      end
   /\ match v, v' with
      | VCond k, VCond k' => c_value k' = c_value k /\ c_op k' = c_op k
+     | VName s, VName s' => s' = match d with DispSizeof => spec_name x s | _ => s end
      | _, _ => v' = v
      end.
 Proof. exact prefix_copy_keeps. Qed.
@@ -156,13 +157,13 @@ Proof. exact unnamed_site_frame. Qed.
 Print Assumptions expand_frame_unnamed.
 
 (* ---- non-vacuity: a concrete schema (as parsed by the repo parser: two sites of one template with a sort-keyed counted array,
-        a fill array, a conditional and a sizeref integer; an unnamed chain Leaf -> Upper -> Mid -> abstract Root) and the
+        a fill array, a conditional, a sizeref integer and a sizeof member; an unnamed chain Leaf -> Upper -> Mid -> abstract Root) and the
         descriptors the repaired implementation produces for it *)
 Definition example_schema : list decl :=
  [(DAlias "Amt" (LInt {| it_unsigned := true; it_size := (8)%Z; it_sizeref := None |}) None);
  (DEnum "Kind" {| it_unsigned := true; it_size := (1)%Z; it_sizeref := None |} [{| ev_name := "FOO"; ev_value := (1)%Z; ev_comment := None |}; {| ev_name := "BAR"; ev_value := (2)%Z; ev_comment := None |}] None None);
  (DStruct {| s_name := "Elem"; s_disp := SdNone; s_fields := [(Field "first_key" (FInt {| it_unsigned := true; it_size := (4)%Z; it_sizeref := None |}) VNone DispNone None None); (Field "other_key" (FName "Amt") VNone DispNone None None)]; s_factory_type := None; s_attrs := None; s_comment := None; s_requires_unaligned := false |});
- (DStruct {| s_name := "Tmpl"; s_disp := SdInline; s_fields := [(Field "count" (FInt {| it_unsigned := true; it_size := (1)%Z; it_sizeref := None |}) VNone DispNone None None); (Field "items" (FArray {| a_elem := (ElName "Elem"); a_size := (SzName "count"); a_sort_key := None; a_byte_constrained := false; a_alignment := None; a_last_padded := None |}) VNone DispNone (Some [{| at_name := "sort_key"; at_values := [(AvStr "first_key")] |}; {| at_name := "alignment"; at_values := [(AvNum (8)%Z); (AvStr "not"); (AvStr "pad_last")] |}]) None); (Field "kind" (FName "Kind") VNone DispNone None None); (Field "opt" (FName "Amt") (VCond {| c_value := (CvName "FOO"); c_op := "equals"; c_link := "kind" |}) DispNone None None); (Field "body_size" (FInt {| it_unsigned := true; it_size := (2)%Z; it_sizeref := None |}) VNone DispNone (Some [{| at_name := "sizeref"; at_values := [(AvStr "body"); (AvNum (2)%Z)] |}]) None); (Field "body" (FName "Elem") VNone DispNone None None); (Field "pad" (FInt {| it_unsigned := true; it_size := (4)%Z; it_sizeref := None |}) (VNum (0)%Z) DispReserved None None); (Field "__value__" (FName "Amt") VNone DispNone None None); (Field "tail" (FArray {| a_elem := (ElInt {| it_unsigned := true; it_size := (1)%Z; it_sizeref := None |}); a_size := SzFill; a_sort_key := None; a_byte_constrained := false; a_alignment := None; a_last_padded := None |}) VNone DispNone None None)]; s_factory_type := None; s_attrs := None; s_comment := (Some "template"); s_requires_unaligned := false |});
+ (DStruct {| s_name := "Tmpl"; s_disp := SdInline; s_fields := [(Field "count" (FInt {| it_unsigned := true; it_size := (1)%Z; it_sizeref := None |}) VNone DispNone None None); (Field "items" (FArray {| a_elem := (ElName "Elem"); a_size := (SzName "count"); a_sort_key := None; a_byte_constrained := false; a_alignment := None; a_last_padded := None |}) VNone DispNone (Some [{| at_name := "sort_key"; at_values := [(AvStr "first_key")] |}; {| at_name := "alignment"; at_values := [(AvNum (8)%Z); (AvStr "not"); (AvStr "pad_last")] |}]) None); (Field "kind" (FName "Kind") VNone DispNone None None); (Field "opt" (FName "Amt") (VCond {| c_value := (CvName "FOO"); c_op := "equals"; c_link := "kind" |}) DispNone None None); (Field "body_size" (FInt {| it_unsigned := true; it_size := (2)%Z; it_sizeref := None |}) VNone DispNone (Some [{| at_name := "sizeref"; at_values := [(AvStr "body"); (AvNum (2)%Z)] |}]) None); (Field "body" (FName "Elem") VNone DispNone None None); (Field "body_bytes" (FInt {| it_unsigned := true; it_size := (4)%Z; it_sizeref := None |}) (VName "body") DispSizeof None None); (Field "pad" (FInt {| it_unsigned := true; it_size := (4)%Z; it_sizeref := None |}) (VNum (0)%Z) DispReserved None None); (Field "__value__" (FName "Amt") VNone DispNone None None); (Field "tail" (FArray {| a_elem := (ElInt {| it_unsigned := true; it_size := (1)%Z; it_sizeref := None |}); a_size := SzFill; a_sort_key := None; a_byte_constrained := false; a_alignment := None; a_last_padded := None |}) VNone DispNone None None)]; s_factory_type := None; s_attrs := None; s_comment := (Some "template"); s_requires_unaligned := false |});
  (DStruct {| s_name := "User"; s_disp := SdNone; s_fields := [(Field "before" (FInt {| it_unsigned := true; it_size := (1)%Z; it_sizeref := None |}) VNone DispNone None None); (Field "first" (FName "Tmpl") VNone DispInline None (Some (bs [91; 99; 111; 117; 110; 116; 93; 32; 110; 117; 109; 98; 101; 114; 32; 111; 102; 32; 105; 116; 101; 109; 115; 10; 91; 95; 95; 118; 97; 108; 117; 101; 95; 95; 93; 32; 116; 104; 101; 32; 97; 109; 111; 117; 110; 116]%Z))); (Field "second" (FName "Tmpl") VNone DispInline None (Some "second site")); (Field "after" (FInt {| it_unsigned := true; it_size := (2)%Z; it_sizeref := None |}) VNone DispNone None None)]; s_factory_type := None; s_attrs := None; s_comment := None; s_requires_unaligned := false |});
  (DStruct {| s_name := "Root"; s_disp := SdAbstract; s_fields := [(Field "size" (FInt {| it_unsigned := true; it_size := (4)%Z; it_sizeref := None |}) VNone DispNone None None)]; s_factory_type := None; s_attrs := (Some [{| at_name := "size"; at_values := [(AvStr "size")] |}]); s_comment := None; s_requires_unaligned := false |});
  (DStruct {| s_name := "Mid"; s_disp := SdInline; s_fields := [(InlinePlaceholder "Root" None); (Field "mid_field" (FInt {| it_unsigned := true; it_size := (1)%Z; it_sizeref := None |}) VNone DispNone None None)]; s_factory_type := None; s_attrs := (Some [{| at_name := "is_aligned"; at_values := [] |}]); s_comment := None; s_requires_unaligned := false |});
@@ -173,13 +174,12 @@ Definition example_expanded : list decl :=
  [(DAlias "Amt" (LInt {| it_unsigned := true; it_size := (8)%Z; it_sizeref := None |}) None);
  (DEnum "Kind" {| it_unsigned := true; it_size := (1)%Z; it_sizeref := None |} [{| ev_name := "FOO"; ev_value := (1)%Z; ev_comment := None |}; {| ev_name := "BAR"; ev_value := (2)%Z; ev_comment := None |}] None None);
  (DStruct {| s_name := "Elem"; s_disp := SdNone; s_fields := [(Field "first_key" (FInt {| it_unsigned := true; it_size := (4)%Z; it_sizeref := None |}) VNone DispNone None None); (Field "other_key" (FName "Amt") VNone DispNone None None)]; s_factory_type := None; s_attrs := None; s_comment := None; s_requires_unaligned := false |});
- (DStruct {| s_name := "Tmpl"; s_disp := SdInline; s_fields := [(Field "count" (FInt {| it_unsigned := true; it_size := (1)%Z; it_sizeref := None |}) VNone DispNone None None); (Field "items" (FArray {| a_elem := (ElName "Elem"); a_size := (SzName "count"); a_sort_key := (Some "first_key"); a_byte_constrained := false; a_alignment := (Some (8)%Z); a_last_padded := (Some false) |}) VNone DispNone (Some [{| at_name := "sort_key"; at_values := [(AvStr "first_key")] |}; {| at_name := "alignment"; at_values := [(AvNum (8)%Z); (AvStr "not"); (AvStr "pad_last")] |}]) None); (Field "kind" (FName "Kind") VNone DispNone None None); (Field "opt" (FName "Amt") (VCond {| c_value := (CvName "FOO"); c_op := "equals"; c_link := "kind" |}) DispNone None None); (Field "body_size" (FInt {| it_unsigned := true; it_size := (2)%Z; it_sizeref := (Some ("body", (Some (2)%Z))) |}) VNone DispNone (Some [{| at_name := "sizeref"; at_values := [(AvStr "body"); (AvNum (2)%Z)] |}]) None); (Field "body" (FName "Elem") VNone DispNone None None); (Field "pad" (FInt {| it_unsigned := true; it_size := (4)%Z; it_sizeref := None |}) (VNum (0)%Z) DispReserved None None); (Field "__value__" (FName "Amt") VNone DispNone None None); (Field "tail" (FArray {| a_elem := (ElInt {| it_unsigned := true; it_size := (1)%Z; it_sizeref := None |}); a_size := SzFill; a_sort_key := None; a_byte_constrained := false; a_alignment := None; a_last_padded := None |}) VNone DispNone None None)]; s_factory_type := None; s_attrs := None; s_comment := (Some "template"); s_requires_unaligned := false |});
- (DStruct {| s_name := "User"; s_disp := SdNone; s_fields := [(Field "before" (FInt {| it_unsigned := true; it_size := (1)%Z; it_sizeref := None |}) VNone DispNone None None); (Field "first_count" (FInt {| it_unsigned := true; it_size := (1)%Z; it_sizeref := None |}) VNone DispNone None (Some "number of items")); (Field "first_items" (FArray {| a_elem := (ElName "Elem"); a_size := (SzName "first_count"); a_sort_key := (Some "first_first_key"); a_byte_constrained := false; a_alignment := (Some (8)%Z); a_last_padded := (Some false) |}) VNone DispNone (Some [{| at_name := "sort_key"; at_values := [(AvStr "first_key")] |}; {| at_name := "alignment"; at_values := [(AvNum (8)%Z); (AvStr "not"); (AvStr "pad_last")] |}]) None); (Field "first_kind" (FName "Kind") VNone DispNone None None); (Field "first_opt" (FName "Amt") (VCond {| c_value := (CvName "FOO"); c_op := "equals"; c_link := "first_kind" |}) DispNone None None); (Field "first_body_size" (FInt {| it_unsigned := true; it_size := (2)%Z; it_sizeref := (Some ("first_body", (Some (2)%Z))) |}) VNone DispNone (Some [{| at_name := "sizeref"; at_values := [(AvStr "body"); (AvNum (2)%Z)] |}]) None); (Field "first_body" (FName "Elem") VNone DispNone None None); (Field "first_pad" (FInt {| it_unsigned := true; it_size := (4)%Z; it_sizeref := None |}) (VNum (0)%Z) DispReserved None None); (Field "first" (FName "Amt") VNone DispNone None (Some "the amount")); (Field "first_tail" (FArray {| a_elem := (ElInt {| it_unsigned := true; it_size := (1)%Z; it_sizeref := None |}); a_size := SzFill; a_sort_key := None; a_byte_constrained := false; a_alignment := None; a_last_padded := None |}) VNone DispNone None None); (Field "second_count" (FInt {| it_unsigned := true; it_size := (1)%Z; it_sizeref := None |}) VNone DispNone None None); (Field "second_items" (FArray {| a_elem := (ElName "Elem"); a_size := (SzName "second_count"); a_sort_key := (Some "second_first_key"); a_byte_constrained := false; a_alignment := (Some (8)%Z); a_last_padded := (Some false) |}) VNone DispNone (Some [{| at_name := "sort_key"; at_values := [(AvStr "first_key")] |}; {| at_name := "alignment"; at_values := [(AvNum (8)%Z); (AvStr "not"); (AvStr "pad_last")] |}]) None); (Field "second_kind" (FName "Kind") VNone DispNone None None); (Field "second_opt" (FName "Amt") (VCond {| c_value := (CvName "FOO"); c_op := "equals"; c_link := "second_kind" |}) DispNone None None); (Field "second_body_size" (FInt {| it_unsigned := true; it_size := (2)%Z; it_sizeref := (Some ("second_body", (Some (2)%Z))) |}) VNone DispNone (Some [{| at_name := "sizeref"; at_values := [(AvStr "body"); (AvNum (2)%Z)] |}]) None); (Field "second_body" (FName "Elem") VNone DispNone None None); (Field "second_pad" (FInt {| it_unsigned := true; it_size := (4)%Z; it_sizeref := None |}) (VNum (0)%Z) DispReserved None None); (Field "second" (FName "Amt") VNone DispNone None None); (Field "second_tail" (FArray {| a_elem := (ElInt {| it_unsigned := true; it_size := (1)%Z; it_sizeref := None |}); a_size := SzFill; a_sort_key := None; a_byte_constrained := false; a_alignment := None; a_last_padded := None |}) VNone DispNone None None); (Field "after" (FInt {| it_unsigned := true; it_size := (2)%Z; it_sizeref := None |}) VNone DispNone None None)]; s_factory_type := None; s_attrs := None; s_comment := None; s_requires_unaligned := false |});
+ (DStruct {| s_name := "Tmpl"; s_disp := SdInline; s_fields := [(Field "count" (FInt {| it_unsigned := true; it_size := (1)%Z; it_sizeref := None |}) VNone DispNone None None); (Field "items" (FArray {| a_elem := (ElName "Elem"); a_size := (SzName "count"); a_sort_key := (Some "first_key"); a_byte_constrained := false; a_alignment := (Some (8)%Z); a_last_padded := (Some false) |}) VNone DispNone (Some [{| at_name := "sort_key"; at_values := [(AvStr "first_key")] |}; {| at_name := "alignment"; at_values := [(AvNum (8)%Z); (AvStr "not"); (AvStr "pad_last")] |}]) None); (Field "kind" (FName "Kind") VNone DispNone None None); (Field "opt" (FName "Amt") (VCond {| c_value := (CvName "FOO"); c_op := "equals"; c_link := "kind" |}) DispNone None None); (Field "body_size" (FInt {| it_unsigned := true; it_size := (2)%Z; it_sizeref := (Some ("body", (Some (2)%Z))) |}) VNone DispNone (Some [{| at_name := "sizeref"; at_values := [(AvStr "body"); (AvNum (2)%Z)] |}]) None); (Field "body" (FName "Elem") VNone DispNone None None); (Field "body_bytes" (FInt {| it_unsigned := true; it_size := (4)%Z; it_sizeref := None |}) (VName "body") DispSizeof None None); (Field "pad" (FInt {| it_unsigned := true; it_size := (4)%Z; it_sizeref := None |}) (VNum (0)%Z) DispReserved None None); (Field "__value__" (FName "Amt") VNone DispNone None None); (Field "tail" (FArray {| a_elem := (ElInt {| it_unsigned := true; it_size := (1)%Z; it_sizeref := None |}); a_size := SzFill; a_sort_key := None; a_byte_constrained := false; a_alignment := None; a_last_padded := None |}) VNone DispNone None None)]; s_factory_type := None; s_attrs := None; s_comment := (Some "template"); s_requires_unaligned := false |});
+ (DStruct {| s_name := "User"; s_disp := SdNone; s_fields := [(Field "before" (FInt {| it_unsigned := true; it_size := (1)%Z; it_sizeref := None |}) VNone DispNone None None); (Field "first_count" (FInt {| it_unsigned := true; it_size := (1)%Z; it_sizeref := None |}) VNone DispNone None (Some "number of items")); (Field "first_items" (FArray {| a_elem := (ElName "Elem"); a_size := (SzName "first_count"); a_sort_key := (Some "first_first_key"); a_byte_constrained := false; a_alignment := (Some (8)%Z); a_last_padded := (Some false) |}) VNone DispNone (Some [{| at_name := "sort_key"; at_values := [(AvStr "first_key")] |}; {| at_name := "alignment"; at_values := [(AvNum (8)%Z); (AvStr "not"); (AvStr "pad_last")] |}]) None); (Field "first_kind" (FName "Kind") VNone DispNone None None); (Field "first_opt" (FName "Amt") (VCond {| c_value := (CvName "FOO"); c_op := "equals"; c_link := "first_kind" |}) DispNone None None); (Field "first_body_size" (FInt {| it_unsigned := true; it_size := (2)%Z; it_sizeref := (Some ("first_body", (Some (2)%Z))) |}) VNone DispNone (Some [{| at_name := "sizeref"; at_values := [(AvStr "body"); (AvNum (2)%Z)] |}]) None); (Field "first_body" (FName "Elem") VNone DispNone None None); (Field "first_body_bytes" (FInt {| it_unsigned := true; it_size := (4)%Z; it_sizeref := None |}) (VName "first_body") DispSizeof None None); (Field "first_pad" (FInt {| it_unsigned := true; it_size := (4)%Z; it_sizeref := None |}) (VNum (0)%Z) DispReserved None None); (Field "first" (FName "Amt") VNone DispNone None (Some "the amount")); (Field "first_tail" (FArray {| a_elem := (ElInt {| it_unsigned := true; it_size := (1)%Z; it_sizeref := None |}); a_size := SzFill; a_sort_key := None; a_byte_constrained := false; a_alignment := None; a_last_padded := None |}) VNone DispNone None None); (Field "second_count" (FInt {| it_unsigned := true; it_size := (1)%Z; it_sizeref := None |}) VNone DispNone None None); (Field "second_items" (FArray {| a_elem := (ElName "Elem"); a_size := (SzName "second_count"); a_sort_key := (Some "second_first_key"); a_byte_constrained := false; a_alignment := (Some (8)%Z); a_last_padded := (Some false) |}) VNone DispNone (Some [{| at_name := "sort_key"; at_values := [(AvStr "first_key")] |}; {| at_name := "alignment"; at_values := [(AvNum (8)%Z); (AvStr "not"); (AvStr "pad_last")] |}]) None); (Field "second_kind" (FName "Kind") VNone DispNone None None); (Field "second_opt" (FName "Amt") (VCond {| c_value := (CvName "FOO"); c_op := "equals"; c_link := "second_kind" |}) DispNone None None); (Field "second_body_size" (FInt {| it_unsigned := true; it_size := (2)%Z; it_sizeref := (Some ("second_body", (Some (2)%Z))) |}) VNone DispNone (Some [{| at_name := "sizeref"; at_values := [(AvStr "body"); (AvNum (2)%Z)] |}]) None); (Field "second_body" (FName "Elem") VNone DispNone None None); (Field "second_body_bytes" (FInt {| it_unsigned := true; it_size := (4)%Z; it_sizeref := None |}) (VName "second_body") DispSizeof None None); (Field "second_pad" (FInt {| it_unsigned := true; it_size := (4)%Z; it_sizeref := None |}) (VNum (0)%Z) DispReserved None None); (Field "second" (FName "Amt") VNone DispNone None None); (Field "second_tail" (FArray {| a_elem := (ElInt {| it_unsigned := true; it_size := (1)%Z; it_sizeref := None |}); a_size := SzFill; a_sort_key := None; a_byte_constrained := false; a_alignment := None; a_last_padded := None |}) VNone DispNone None None); (Field "after" (FInt {| it_unsigned := true; it_size := (2)%Z; it_sizeref := None |}) VNone DispNone None None)]; s_factory_type := None; s_attrs := None; s_comment := None; s_requires_unaligned := false |});
  (DStruct {| s_name := "Root"; s_disp := SdAbstract; s_fields := [(Field "size" (FInt {| it_unsigned := true; it_size := (4)%Z; it_sizeref := None |}) VNone DispNone None None)]; s_factory_type := None; s_attrs := (Some [{| at_name := "size"; at_values := [(AvStr "size")] |}]); s_comment := None; s_requires_unaligned := false |});
  (DStruct {| s_name := "Mid"; s_disp := SdInline; s_fields := [(Field "size" (FInt {| it_unsigned := true; it_size := (4)%Z; it_sizeref := None |}) VNone DispNone None None); (Field "mid_field" (FInt {| it_unsigned := true; it_size := (1)%Z; it_sizeref := None |}) VNone DispNone None None)]; s_factory_type := (Some "Root"); s_attrs := (Some [{| at_name := "is_aligned"; at_values := [] |}; {| at_name := "size"; at_values := [(AvStr "size")] |}]); s_comment := None; s_requires_unaligned := false |});
  (DStruct {| s_name := "Upper"; s_disp := SdNone; s_fields := [(Field "upper_field" (FInt {| it_unsigned := true; it_size := (2)%Z; it_sizeref := None |}) VNone DispNone None None); (Field "size" (FInt {| it_unsigned := true; it_size := (4)%Z; it_sizeref := None |}) VNone DispNone None None); (Field "mid_field" (FInt {| it_unsigned := true; it_size := (1)%Z; it_sizeref := None |}) VNone DispNone None None)]; s_factory_type := (Some "Root"); s_attrs := (Some [{| at_name := "is_aligned"; at_values := [] |}; {| at_name := "size"; at_values := [(AvStr "size")] |}]); s_comment := None; s_requires_unaligned := false |});
- (DStruct {| s_name := "Leaf"; s_disp := SdNone; s_fields := [(Field "upper_field" (FInt {| it_unsigned := true; it_size := (2)%Z; it_sizeref := None |}) VNone DispNone None None); (Field "size" (FInt {| it_unsigned := true; it_size := (4)%Z; it_sizeref := None |}) VNone DispNone None None); (Field "mid_field" (FInt {| it_unsigned := true; it_size := (1)%Z; it_sizeref := None |}) VNone DispNone None None); (Field "extra_count" (FInt {| it_unsigned := true; it_size := (1)%Z; it_sizeref := None |}) VNone DispNone None None); (Field "extra_items" (FArray {| a_elem := (ElName "Elem"); a_size := (SzName "extra_count"); a_sort_key := (Some "extra_first_key"); a_byte_constrained := false; a_alignment := (Some (8)%Z); a_last_padded := (Some false) |}) VNone DispNone (Some [{| at_name := "sort_key"; at_values := [(AvStr "first_key")] |}; {| at_name := "alignment"; at_values := [(AvNum (8)%Z); (AvStr "not"); (AvStr "pad_last")] |}]) None); (Field "extra_kind" (FName "Kind") VNone DispNone None None); (Field "extra_opt" (FName "Amt") (VCond {| c_value := (CvName "FOO"); c_op := "equals"; c_link := "extra_kind" |}) DispNone None None); (Field "extra_body_size" (FInt {| it_unsigned := true; it_size := (2)%Z; it_sizeref := (Some ("extra_body", (Some (2)%Z))) |}) VNone DispNone (Some [{| at_name := "sizeref"; at_values := [(AvStr "body"); (AvNum (2)%Z)] |}]) None); (Field "extra_body" (FName "Elem") VNone DispNone None None); (Field "extra_pad" (FInt {| it_unsigned := true; it_size := (4)%Z; it_sizeref := None |}) (VNum (0)%Z) DispReserved None None); (Field "extra" (FName "Amt") VNone DispNone None None); (Field "extra_tail" (FArray {| a_elem := (ElInt {| it_unsigned := true; it_size := (1)%Z; it_sizeref := None |}); a_size := SzFill; a_sort_key := None; a_byte_constrained := false; a_alignment := None; a_last_padded := None |}) VNone DispNone None None)]; s_factory_type := (Some "Root"); s_attrs := (Some [{| at_name := "is_aligned"; at_values := [] |}; {| at_name := "size"; at_values := [(AvStr "size")] |}]); s_comment := None; s_requires_unaligned := false |})].
-
+ (DStruct {| s_name := "Leaf"; s_disp := SdNone; s_fields := [(Field "upper_field" (FInt {| it_unsigned := true; it_size := (2)%Z; it_sizeref := None |}) VNone DispNone None None); (Field "size" (FInt {| it_unsigned := true; it_size := (4)%Z; it_sizeref := None |}) VNone DispNone None None); (Field "mid_field" (FInt {| it_unsigned := true; it_size := (1)%Z; it_sizeref := None |}) VNone DispNone None None); (Field "extra_count" (FInt {| it_unsigned := true; it_size := (1)%Z; it_sizeref := None |}) VNone DispNone None None); (Field "extra_items" (FArray {| a_elem := (ElName "Elem"); a_size := (SzName "extra_count"); a_sort_key := (Some "extra_first_key"); a_byte_constrained := false; a_alignment := (Some (8)%Z); a_last_padded := (Some false) |}) VNone DispNone (Some [{| at_name := "sort_key"; at_values := [(AvStr "first_key")] |}; {| at_name := "alignment"; at_values := [(AvNum (8)%Z); (AvStr "not"); (AvStr "pad_last")] |}]) None); (Field "extra_kind" (FName "Kind") VNone DispNone None None); (Field "extra_opt" (FName "Amt") (VCond {| c_value := (CvName "FOO"); c_op := "equals"; c_link := "extra_kind" |}) DispNone None None); (Field "extra_body_size" (FInt {| it_unsigned := true; it_size := (2)%Z; it_sizeref := (Some ("extra_body", (Some (2)%Z))) |}) VNone DispNone (Some [{| at_name := "sizeref"; at_values := [(AvStr "body"); (AvNum (2)%Z)] |}]) None); (Field "extra_body" (FName "Elem") VNone DispNone None None); (Field "extra_body_bytes" (FInt {| it_unsigned := true; it_size := (4)%Z; it_sizeref := None |}) (VName "extra_body") DispSizeof None None); (Field "extra_pad" (FInt {| it_unsigned := true; it_size := (4)%Z; it_sizeref := None |}) (VNum (0)%Z) DispReserved None None); (Field "extra" (FName "Amt") VNone DispNone None None); (Field "extra_tail" (FArray {| a_elem := (ElInt {| it_unsigned := true; it_size := (1)%Z; it_sizeref := None |}); a_size := SzFill; a_sort_key := None; a_byte_constrained := false; a_alignment := None; a_last_padded := None |}) VNone DispNone None None)]; s_factory_type := (Some "Root"); s_attrs := (Some [{| at_name := "is_aligned"; at_values := [] |}; {| at_name := "size"; at_values := [(AvStr "size")] |}]); s_comment := None; s_requires_unaligned := false |})].
 
 Definition example_after_attributes : list decl :=
   match apply_attributes example_schema with Ok s => s | _ => [] end.
@@ -206,22 +206,22 @@ Example example_sites :
   /\ (exists U, lookup example_expanded "User" = Some (DStruct U) /\
        map field_name (s_fields U)
        = [Some "before"; Some "first_count"; Some "first_items"; Some "first_kind"; Some "first_opt"; Some "first_body_size";
-          Some "first_body"; Some "first_pad"; Some "first"; Some "first_tail";
+          Some "first_body"; Some "first_body_bytes"; Some "first_pad"; Some "first"; Some "first_tail";
           Some "second_count"; Some "second_items"; Some "second_kind"; Some "second_opt"; Some "second_body_size";
-          Some "second_body"; Some "second_pad"; Some "second"; Some "second_tail"; Some "after"]
+          Some "second_body"; Some "second_body_bytes"; Some "second_pad"; Some "second"; Some "second_tail"; Some "after"]
        /\ nth_error (s_fields U) 2
           = Some (Field "first_items"
                     (FArray {| a_elem := ElName "Elem"; a_size := SzName "first_count"; a_sort_key := Some "first_first_key";
                                a_byte_constrained := false; a_alignment := Some 8%Z; a_last_padded := Some false |})
                     VNone DispNone (Some [{| at_name := "sort_key"; at_values := [AvStr "first_key"] |};
                                           {| at_name := "alignment"; at_values := [AvNum 8%Z; AvStr "not"; AvStr "pad_last"] |}]) None)
-       /\ nth_error (s_fields U) 11
+       /\ nth_error (s_fields U) 12
           = Some (Field "second_items"
                     (FArray {| a_elem := ElName "Elem"; a_size := SzName "second_count"; a_sort_key := Some "second_first_key";
                                a_byte_constrained := false; a_alignment := Some 8%Z; a_last_padded := Some false |})
                     VNone DispNone (Some [{| at_name := "sort_key"; at_values := [AvStr "first_key"] |};
                                           {| at_name := "alignment"; at_values := [AvNum 8%Z; AvStr "not"; AvStr "pad_last"] |}]) None)
-       /\ nth_error (s_fields U) 9
+       /\ nth_error (s_fields U) 10
           = Some (Field "first_tail"
                     (FArray {| a_elem := ElInt {| it_unsigned := true; it_size := 1%Z; it_sizeref := None |}; a_size := SzFill;
                                a_sort_key := None; a_byte_constrained := false; a_alignment := None; a_last_padded := None |})
@@ -232,6 +232,12 @@ Example example_sites :
        /\ nth_error (s_fields U) 5
           = Some (Field "first_body_size" (FInt {| it_unsigned := true; it_size := 2%Z; it_sizeref := Some ("first_body", Some 2%Z) |})
                     VNone DispNone (Some [{| at_name := "sizeref"; at_values := [AvStr "body"; AvNum 2%Z] |}]) None)
+       /\ nth_error (s_fields U) 7
+          = Some (Field "first_body_bytes" (FInt {| it_unsigned := true; it_size := 4%Z; it_sizeref := None |}) (VName "first_body")
+                    DispSizeof None None)
+       /\ nth_error (s_fields U) 17
+          = Some (Field "second_body_bytes" (FInt {| it_unsigned := true; it_size := 4%Z; it_sizeref := None |}) (VName "second_body")
+                    DispSizeof None None)
        /\ nth_error (s_fields U) 4
           = Some (Field "first_opt" (FName "Amt") (VCond {| c_value := CvName "FOO"; c_op := "equals"; c_link := "first_kind" |})
                     DispNone None None)).
